@@ -8,6 +8,7 @@ import TjdModel.Autojac.Pipeline
 import TjdModel.Autojac.Prog
 import TjdModel.Autojac.Spec
 import TjdModel.Autojac.Heap
+import TjdModel.Autojac.Leaves
 namespace Tjd.Driver
 open Tjd SExp
 
@@ -245,10 +246,39 @@ def handleHistory (req : SExp) : Option SExp := do
 
 end AutojacD
 
+/-! ### C12 default parameter discovery on an extracted autograd graph -/
+namespace LeavesD
+open Tjd.Leaves
+
+def parseGNode : SExp → Option GNode
+  | list [acc, list nxt] => do
+    let a ← acc.bool?
+    let es ← nxt.mapM fun e => match e with
+      | atom "none" => some (none : Option (Nat × Nat))
+      | list [c, nr] => do pure (some ((← c.nat?), (← nr.nat?)))
+      | _ => none
+    pure ⟨a, es⟩
+  | _ => none
+
+def parsePairs (es : List SExp) : Option (List (Nat × Nat)) :=
+  es.mapM fun e => match e with
+    | list [a, b] => do pure ((← a.nat?), (← b.nat?))
+    | _ => none
+
+def handle (req : SExp) : Option SExp := do
+  let G ← (← req.field? "graph").mapM parseGNode
+  let roots ← parsePairs (← req.field? "roots")
+  let excl ← parsePairs (← req.field? "excluded")
+  let bfs := descendantAccs G roots excl
+  let tl := reachAvoidingTensors G roots excl
+  pure (list [list [atom "bfs", ofNats (sortNats bfs)], list [atom "tensorlevel", ofNats (sortNats tl)]])
+
+end LeavesD
+
 def handlers : List (String × (SExp → Option SExp)) :=
   [("typing", TypingD.handle), ("backward", AutojacD.handleBackward),
    ("mtl", AutojacD.handleMtl), ("jacobian", AutojacD.handleJacobian),
-   ("history", AutojacD.handleHistory)]
+   ("history", AutojacD.handleHistory), ("leaves", LeavesD.handle)]
 
 def handleLine (line : String) : String :=
   match SExp.parse line with
